@@ -98,8 +98,12 @@ fn step(line: &str, st: &mut Streams) -> Option<i32> {
         },
         "kill" => unsafe {
             // die by a signal instead of exiting (no exit code)
+            // the Rust runtime installs handlers of its own (SIGSEGV/SIGBUS for stack overflow
+            // detection, SIGPIPE ignored): restore the default action so that the signal really kills
+            let signo: i32 = arg.parse().unwrap_or(9);
             libc::signal(libc::SIGPIPE, libc::SIG_DFL);
-            libc::kill(libc::getpid(), arg.parse().unwrap_or(9));
+            libc::signal(signo, libc::SIG_DFL);
+            libc::kill(libc::getpid(), signo);
             std::thread::sleep(std::time::Duration::from_secs(5));
         },
         "spawn" => {
